@@ -16,6 +16,7 @@ mod epsim;
 mod families;
 mod hcsim;
 mod hostile;
+mod misc;
 mod model;
 mod payload;
 mod rate14;
@@ -235,6 +236,10 @@ fn run_scenario(family: &str, seed: u64, idx: u64, params: &Params) -> ScnOut {
         "hostile-rx" => {
             hostile::run_batch(scn_seed, params, &mut out, true);
         }
+        "sendsync" => {
+            misc::run_sendsync(scn_seed, &mut out);
+        }
+        "noop" => {}
         "srcomp" => {
             rate14::run_batch(scn_seed, params, &mut out);
         }
